@@ -484,7 +484,7 @@ def r7(ctx):
               "with an unused-bit count of 0 every bit must be kept (data[:-0] is empty): stores per unused count %r" % {k: sorted(v) for k, v in got.items()})
     # bit order msb first on both sides
     sh_e = [n for n in walk_shallow(enc) if isinstance(n, ast.BinOp) and isinstance(n.op, ast.LShift) and "7 - " in norm(n.right)]
-    sh_d = [n for n in walk_shallow(dec) if isinstance(n, ast.BinOp) and isinstance(n.op, ast.LShift) and "7 - " in norm(n.right)]
+    sh_d = [n for n in walk_shallow(dec) if isinstance(n, ast.BinOp) and isinstance(n.op, (ast.LShift, ast.RShift)) and "7 - " in norm(n.right)]
     ctx.check("BitString:msb-first", len(sh_e) == 1 and len(sh_d) == 1, where(m, b.node), "bit i of each octet is 1 << (7 - i) on both sides")
 
 
@@ -614,3 +614,33 @@ def r9(ctx):
 
 def is_attr_of(node, base, attr):
     return isinstance(node, ast.Attribute) and node.attr == attr and isinstance(node.value, ast.Name) and node.value.id == base
+
+
+@rule("C01.R11", "a character string is sent as the octets it holds under the character set it holds; an enumeration class builds its own name table", floor=2, engines="E0")
+def r11(ctx):
+    prog = ctx.prog
+    m = prog.module(PM)
+    cs = prog.cls(PM, "CharacterString")
+    enc = cs.methods.get("encode")
+    if enc is None:
+        raise AnchorMissing("CharacterString.encode")
+    sets = [x for x in calls_in(enc) if norm(x.func).endswith(".set_app_data") and len(x.args) == 2]
+    ok = len(sets) == 1
+    if ok:
+        data = sets[0].args[1]
+        ok = any(is_self_attr(n, "strEncoding") for n in ast.walk(data)) and any(is_self_attr(n, "strValue") for n in ast.walk(data)) \
+            and not any(isinstance(n, ast.Call) and isinstance(n.func, ast.Attribute) and n.func.attr == "encode" for n in ast.walk(data)) \
+            and not any(is_self_attr(n, "value") for n in ast.walk(data))
+    ctx.check("CharacterString.encode:stored-octets", ok, where(m, enc),
+              "the data must be the character-set octet followed by the stored octets (strValue): re-encoding the text as UTF-8 garbles every string that was decoded in another character set")
+    en = prog.cls(PM, "Enumerated")
+    init = en.methods.get("__init__")
+    if init is None:
+        raise AnchorMissing("Enumerated.__init__")
+    ex = [x for x in calls_in(init) if norm(x.func) == "expand_enumerations"]
+    ok = len(ex) == 1
+    if ok:
+        tests = [norm(z.test) for z in facts_at(ex[0])]
+        ok = any("__dict__" in t and "_xlate_table" in t for t in tests)
+    ctx.check("Enumerated.__init__:own-table", ok, where(m, init),
+              "the name table is built when the class itself has none (its own __dict__): testing the inherited attribute makes an enumeration derived from an expanded one keep its base's table and refuse its own names")
